@@ -168,8 +168,8 @@ CORPUS = [
     _P("intdiv_mod", [ph("m", (5,), I64), ph("n", (5,), I64)],
        lambda L, m, n: {"q": m // (n * n + 1), "r": m % (n * n + 1), "p": m ** 2}),
     _P("compare_logic", [ph("x", (3, 3)), ph("y", (3,))],
-       lambda L, x, y: {"lt": L.less(x, y), "ge": L.greater_equal(x, 0.5), "and": L.logical_and(L.less(x, y), L.greater(x, 0)),
-                        "or": L.logical_or(L.equal(x, y), L.not_equal(y, 1.0)), "not": L.logical_not(L.less_equal(x, y))}),
+       lambda L, x, y: {"lt": L.less(x, y), "ge": L.greater_equal(x, 0.5), "land": L.logical_and(L.less(x, y), L.greater(x, 0)),
+                        "lor": L.logical_or(L.equal(x, y), L.not_equal(y, 1.0)), "lnot": L.logical_not(L.less_equal(x, y))}),
     _P("where_minmax", [ph("x", (4, 2)), ph("y", (4, 1)), ph("c", (2,), B)],
        lambda L, x, y, c: {"w": L.where(c, x, y), "mx": L.maximum(x, y), "mn": L.minimum(x, 0.5),
                            "w2": L.where(L.less(x, y), 1.0, x)}),
@@ -232,7 +232,7 @@ CORPUS = [
     _P("out_is_input", [ph("x", (3,)), ph("y", (3,))],
        lambda L, x, y: {"x_out": x, "same1": x + y, "same2": x + y, "y2": y * 2}),
     _P("data_wrappers", [dw("d", (3, 2)), ph("x", (3, 2)), dw("e", (2,), I64)],
-       lambda L, d, x, e: {"o": d * x + e, "s": L.sum(d, axis=0) * e, "d": d[::-1]}, tags=("reduction",)),
+       lambda L, d, x, e: {"o": d * x + e, "s": L.sum(d, axis=0) * e, "drev": d[::-1]}, tags=("reduction",)),
     _P("zero_size", [ph("x", (0, 3)), ph("y", (3,))],
        lambda L, x, y: {"a": x + y, "c": L.concatenate([x, L.reshape(y, (1, 3))]), "r": L.reshape(x, (3, 0)),
                         "t": x.T}),
@@ -245,7 +245,7 @@ CORPUS = [
     _P("where_idx", [ph("x", (3, 4)), ph("y", (3, 4))],
        lambda L, x, y: {"o": L.where(L.less(L.roll(x, 1, 1), y), L.concatenate([x[:, :2], y[:, 2:]], axis=1), x[::-1])}),
     _P("bitwise", [ph("m", (4,), I32), ph("n", (4,), I32)],
-       lambda L, m, n: {"and": m & n, "or": m | 3, "xor": 5 ^ n}),
+       lambda L, m, n: {"band": m & n, "bor": m | 3, "bxor": 5 ^ n}),
     _P("bool_arith", [ph("p", (3,), B), ph("x", (3,))],
        lambda L, p, x: {"o": p * x, "w": L.where(p, x, -x), "n": L.logical_not(p)}),
     _P("f32", [ph("x", (2, 2), F32), ph("y", (2,), F32)],
@@ -378,3 +378,63 @@ def generated(seed, n, exclude=()):
             continue
         out.append(Prog(f"gen{seed}_{k}", ins, _gen_fn(ops, keep), ("generated", "reduction", "einsum")))
     return out
+
+
+# ---------------------------------------------------------------------------
+# programs over symbolic (size-parameter) shapes  (C11, C16)
+
+@dataclass
+class SymProg:
+    name: str
+    sizes: tuple                # size parameter names
+    inputs: list                # (name, shape_fn(sizes...) -> tuple, dtype)
+    fn: object                  # fn(L, S, **arrays) -> {name: array};  S: dict size name -> scalar (SizeParam / int)
+    min_size: int = 0
+
+
+SYM_CORPUS = [
+    SymProg("sym_elementwise", ("n",), [("x", lambda n: (n, 3), F64), ("y", lambda n: (3,), F64), ("z", lambda n: (n, 1), F64)],
+            lambda L, S, x, y, z: {"o": x * y + z, "p": 2.0 - x / (z * z + 1)}),
+    SymProg("sym_two_params", ("n", "m"), [("a", lambda n, m: (n, m), F64), ("b", lambda n, m: (m,), F64)],
+            lambda L, S, a, b: {"o": a + b, "t": a.T, "w": L.where(L.less(a, b), a, b)}),
+    SymProg("sym_roll", ("n",), [("x", lambda n: (n, 2), F64)],
+            lambda L, S, x: {"r": L.roll(x, 3, 0), "rn": L.roll(x, -1, 0), "r1": L.roll(x, 1, 1)}, min_size=1),
+    SymProg("sym_stack", ("n",), [("x", lambda n: (n,), F64), ("y", lambda n: (n,), F64)],
+            lambda L, S, x, y: {"s0": L.stack([x, y]), "s1": L.stack([x, y, x + y], axis=1)}),
+    SymProg("sym_reduce_static", ("n",), [("x", lambda n: (n, 4), F64)],
+            lambda L, S, x: {"s": L.sum(x, axis=1), "m": L.max(x, axis=1)}),
+    SymProg("sym_reduce_symbolic", ("n",), [("x", lambda n: (3, n), F64)],
+            lambda L, S, x: {"s": L.sum(x, axis=1)}, min_size=1),
+    SymProg("sym_einsum", ("n",), [("a", lambda n: (n, 3), F64), ("b", lambda n: (3, 2), F64), ("v", lambda n: (n,), F64)],
+            lambda L, S, a, b, v: {"mm": a @ b, "ew": L.einsum("ij,i->ij", a, v), "tr": L.einsum("ij->ji", a)}),
+    SymProg("sym_einsum_contract", ("n",), [("a", lambda n: (2, n), F64), ("b", lambda n: (n, 3), F64)],
+            lambda L, S, a, b: {"mm": a @ b}, min_size=1),
+    SymProg("sym_full", ("n",), [("x", lambda n: (n, 2), F64)],
+            lambda L, S, x: {"z": L.zeros((S["n"], 2)) + x, "f": L.full((S["n"],), 2.5), "zl": L.zeros_like(x) + 1}),
+    SymProg("sym_index", ("n",), [("x", lambda n: (n, 4), F64)],
+            lambda L, S, x: {"c": x[:, 1], "sl": x[:, ::2], "rev": x[:, ::-1]}),
+    SymProg("sym_affine_shape", ("n",), [("x", lambda n: (2 * n + 1,), F64), ("y", lambda n: (2 * n + 1,), F64)],
+            lambda L, S, x, y: {"o": x + y, "r": L.roll(x, 2, 0)}),
+    SymProg("sym_expand", ("n",), [("x", lambda n: (n,), F64)],
+            lambda L, S, x: {"e": L.expand_dims(x, 0) * 2, "bt": L.broadcast_to(L.expand_dims(x, 1), (S["n"], 3))}),
+    SymProg("sym_pad", ("n",), [("x", lambda n: (n,), F64)],
+            lambda L, S, x: {"p": L.pad(x, (1, 2))}),
+]
+
+
+def build_sym_pytato(prog: SymProg):
+    import pytato as pt
+    L = PtLib()
+    S = {s: pt.make_size_param(s) for s in prog.sizes}
+    ins = {name: pt.make_placeholder(name, shp(*[S[s] for s in prog.sizes]), dt) for name, shp, dt in prog.inputs}
+    return prog.fn(L, S, **ins), ins, S
+
+
+def build_sym_ref(prog: SymProg, xp, sizes: dict):
+    ins = {name: xp.input(name, shp(*[sizes[s] for s in prog.sizes]), dt) for name, shp, dt in prog.inputs}
+    return prog.fn(xp, sizes, **ins), ins
+
+
+def build_sym_numpy(prog: SymProg, sizes: dict, data):
+    with np.errstate(all="ignore"):
+        return prog.fn(NpLib(), sizes, **data)
